@@ -339,10 +339,13 @@ def oracle_grid(spec):
     if call(lambda: iv.semitones) != R.semitones(n, q):
         o.add("interval-semitones-wrong", interval=spec["interval"], got=iv.semitones, expected=R.semitones(n, q))
     before = arg_fp(score, True, False, True)
+    iv_before = dict(iv.__dict__)
     res = call(M.transpose, score, iv)
     after = arg_fp(score, True, False, True)
     if before != after:
         o.add("argument-modified", where=first_diff(before, after), leg=1, pitch_only=_mask_again(before) == _mask_again(after), arg="Score")
+    if dict(iv.__dict__) != iv_before:
+        o.add("interval-argument-modified", before=repr(iv_before), after=repr(iv.__dict__), leg=1)
     if not isinstance(res, S.Score) or res is score:
         o.add("result-not-a-new-score", got=type(res).__name__)
         return o
@@ -385,7 +388,9 @@ def _mask_again(fp_with_pitch):
 # ===========================================================================
 def enum_tn(tier):
     out = []
-    for step in R.LETTERS:
+    # lower-case letters: RomanNumeral.find_root_note / process_local_key pass the letter of a minor
+    # key as it is written ("c", "f#"), and transpose_note capitalises it itself
+    for step in R.LETTERS + R.LETTERS.lower():
         for alter in (-2, -1, 0, 1, 2):
             for (n, q) in INTERVALS:
                 for d in ("up", "down"):
@@ -394,19 +399,30 @@ def enum_tn(tier):
 
 
 def oracle_tn(spec):
-    step, alter = spec["step"], spec["alter"]
+    step_arg, alter = spec["step"], spec["alter"]
+    step = step_arg.upper()
     n, q, d = spec["interval"]
     exp = R.transpose_pitch_class(step, alter, n, q, d)
     in_range = abs(exp[1]) <= MAX_ALTER
     o = Outcome(nontrivial=alter != 0 and d == "up" and in_range)
     o.cls("direction-" + d)
     o.cls("result-in-range", in_range)
-    iv = call(S.Interval, n, q, d)
+    o.cls("lower-case-letter", step_arg != step)
+    o.cls("lower-case-letter-judged", step_arg != step and d == "up" and in_range)
+    # Interval documents direction="up" as its default: the upward half of the lower-case points leaves it out
+    if d == "up" and step_arg != step:
+        o.cls("interval-direction-left-to-default")
+        iv = call(S.Interval, n, q)
+    else:
+        iv = call(S.Interval, n, q, d)
+    iv_before = dict(iv.__dict__)
     try:
-        got = M.transpose_note(step, alter, iv)
+        got = M.transpose_note(step_arg, alter, iv)
         raised = None
     except AssertionError as e:
         got, raised = None, e
+    if dict(iv.__dict__) != iv_before:
+        o.add("interval-argument-modified", before=repr(iv_before), after=repr(iv.__dict__), where="transpose_note")
     if d == "down" or not in_range:
         # documented: only direction up; the result alteration is asserted to be within +-2.
         # Rejection is the contract; a returned value must at least not be a wrong one.
@@ -496,6 +512,29 @@ def _strat_sampled(draw, tier):
             for n in ps["notes"]:
                 if _pitched(n) and n["alter"] == 0:
                     n["alter"] = None  # importer style natural
+        # "all other elements are unchanged": elements the shared generator does not draw - unpitched
+        # (percussion) notes, which have a display step and octave but are not pitched notes, slurs
+        # (they refer to notes), fermatas, articulations and tempo marks
+        if draw(st.integers(0, 2)) == 0:
+            real = [x for x in ps["notes"] if x["kind"] == "note"]
+            if real:
+                top = max(x["voice"] or 1 for x in ps["notes"])
+                for j in range(draw(st.integers(1, 2))):
+                    a = draw(st.sampled_from(real))
+                    ps["notes"].append({"id": "%s-u%d" % (a["id"], j), "kind": "unpitched", "t": a["t"], "dur": a["dur"],
+                                        "step": draw(st.sampled_from("CDEFGAB")), "octave": draw(st.integers(3, 5)), "alter": None,
+                                        "voice": top + 1, "staff": a["staff"], "sym": a.get("sym")})
+                if len(real) >= 2 and draw(st.booleans()):
+                    i = draw(st.integers(0, len(real) - 2))
+                    later = [x for x in real[i + 1:] if x["voice"] == real[i]["voice"] and x["t"] > real[i]["t"]]
+                    if later:
+                        ps["slurs"] = [[real[i]["id"], draw(st.sampled_from(later))["id"]]]
+                if draw(st.booleans()):
+                    draw(st.sampled_from(real))["fermata"] = True
+                if draw(st.booleans()):
+                    draw(st.sampled_from(real))["art"] = ["staccato", "accent"]
+                if draw(st.booleans()):
+                    ps["tempos"] = [[0, draw(st.sampled_from([60, 96, 120])), "q"]]
         parts.append(ps)
     if nparts == 2 and draw(st.integers(0, 2)) == 0:
         # two distinct parts carrying the same part id (e.g. a score assembled from two files)
@@ -505,11 +544,22 @@ def _strat_sampled(draw, tier):
         "parts": parts,
         "group": bool(arg == "score" and draw(st.integers(0, 2)) == 0),
         "interval": draw(st.sampled_from(ALL_INTERVALS)),
+        # how the Interval is made: all three arguments by position, by keyword, or (upward only) with the
+        # documented default direction left out
+        "interval_ctor": draw(st.sampled_from(["positional", "keyword", "default-direction"])),
     }
 
 
 def strat_sampled(tier):
     return _strat_sampled(tier)
+
+
+def make_interval(n, q, d, how):
+    if how == "keyword":
+        return call(lambda: S.Interval(number=n, quality=q, direction=d))
+    if how == "default-direction" and d == "up":
+        return call(lambda: S.Interval(n, q))
+    return call(S.Interval, n, q, d)
 
 
 def _build_arg(spec):
@@ -537,7 +587,10 @@ def _transpose_leg(o, arg, iv, interval, src_tab, leg, judged_ids):
     before = arg_fp(arg, True, False, True)
     before_sem = arg_fp(arg, False, True, False)
     in_tab = [dict((nid, spelling(x)) for nid, x in tab.items()) for tab in _notes_by_id(arg)]
+    iv_before = dict(iv.__dict__)
     res = call(M.transpose, arg, iv)
+    if dict(iv.__dict__) != iv_before:
+        o.add("interval-argument-modified", before=repr(iv_before), after=repr(iv.__dict__), leg=leg)
     after = arg_fp(arg, True, False, True)
     modified = before != after
     pitch_only = modified and _mask_again(before) == _mask_again(after)
@@ -635,7 +688,15 @@ def oracle_sampled(spec):
     if n_pitched == 0:
         o.excluded.append("no-pitched-note")
 
-    iv = call(S.Interval, n, q, d)
+    how = spec.get("interval_ctor", "positional")
+    o.cls("interval-by-keyword", how == "keyword")
+    o.cls("interval-direction-left-to-default", how == "default-direction" and d == "up")
+    o.cls("unpitched-notes", any(x["kind"] == "unpitched" for x in allnotes))
+    o.cls("slurs", any(ps.get("slurs") for ps in spec["parts"]))
+    o.cls("fermata", any(x.get("fermata") for x in allnotes))
+    o.cls("articulations", any(x.get("art") for x in allnotes))
+    o.cls("tempo-mark", any(ps.get("tempos") for ps in spec["parts"]))
+    iv = make_interval(n, q, d, how)
     res, right = _transpose_leg(o, arg, iv, interval, src_tab, 1, judged)
     if res is None:
         return o
@@ -653,11 +714,187 @@ def oracle_sampled(spec):
                 raise AssertionError("reference arithmetic is not its own inverse: %r" % ((sp, interval),))
             t2[nid] = (e1, tie_prev, kind)
         mid_tab.append(t2)
-    iv2 = call(S.Interval, n, q, back[2])
+    iv2 = make_interval(n, q, back[2], how)
     o.cls("second-leg-run")
     _transpose_leg(o, res, iv2, back, mid_tab, 2, right)
     return o
 
+
+# ===========================================================================
+# 4. the callers named by the property: chord roots / bass notes of Roman numerals, local keys
+# ===========================================================================
+# Scale degrees as (number, semitones above the tonic).  Only degrees whose meaning does not depend on a
+# convention: major I ii IV V vi, minor (natural scale, dominant with either third) i iv V v VI.
+DEGREES = {
+    "major": {"I": (1, 0), "ii": (2, 2), "IV": (4, 5), "V": (5, 7), "vi": (6, 9)},
+    "minor": {"i": (1, 0), "iv": (4, 5), "V": (5, 7), "v": (5, 7), "VI": (6, 8)},
+}
+# natural-scale degrees for local keys (DCML: relative to the global key's scale)
+SCALE = {"major": [0, 2, 4, 5, 7, 9, 11], "minor": [0, 2, 3, 5, 7, 8, 10]}
+ROMAN_NUMBER = {"i": 1, "ii": 2, "iii": 3, "iv": 4, "v": 5, "vi": 6, "vii": 7}
+# figure -> (inversion, chord member in the bass as (number, semitones above the root; None = third by chord quality))
+FIGURES = {"6": (1, None), "64": (2, (5, 7)), "65": (1, None), "43": (2, (5, 7)), "2": (3, (7, 10))}
+SEVENTH_OK = ("V", "ii", "v", "vi", "iv", "i")  # chords whose seventh is a minor seventh (dominant / minor seventh chords)
+
+
+def _move(step, alter, number, semis):
+    """(letter, alteration) `number` letters (1 = same) and `semis` semitones above (step, alter); octave-free."""
+    idx = R.LETTERS.index(step) + number - 1
+    new = R.LETTERS[idx % 7]
+    natural = R.BASE[new] + 12 * (idx // 7) - R.BASE[step]
+    return new, alter + semis - natural
+
+
+def _parse_name(name):
+    """'E-', 'Eb', 'f#', 'B--' -> (letter, alteration); the first character is the letter."""
+    if not isinstance(name, str) or not name or name[0].upper() not in R.LETTERS:
+        return None
+    alter = 0
+    for ch in name[1:]:
+        if ch in "-b":
+            alter -= 1
+        elif ch == "#":
+            alter += 1
+        else:
+            return None
+    return name[0].upper(), alter
+
+
+def _key_text(step, alter, mode, flat):
+    """Key name as written in annotations: letter (upper = major, lower = minor) + accidentals."""
+    letter = step if mode == "major" else step.lower()
+    return letter + ("#" * alter if alter > 0 else flat * (-alter))
+
+
+def enum_roots(tier):
+    out = []
+    keys = [(st_, al, mode) for st_ in R.LETTERS for al in (-1, 0, 1) for mode in ("major", "minor")]
+    for (st_, al, mode) in keys:
+        # (a) Roman numerals in a key, optionally applied to another degree ("V65/V")
+        secs = [None] + (["V", "IV", "ii", "vi"] if mode == "major" else ["V", "iv", "v", "VI"])
+        for sec in secs:
+            mode2 = mode if sec is None else ("major" if sec.isupper() else "minor")
+            for prim in DEGREES[mode2]:
+                for fig in FIGURES:
+                    if fig in ("65", "43", "2") and prim not in SEVENTH_OK:
+                        continue
+                    # how the chord reaches RomanNumeral: "Key:RN" in one text (MusicXML <function>), or the key in
+                    # local_key= as process_local_key writes it (flats as '-', DCML import), or with 'b' flats
+                    for style in ("text", "local_key-dash", "local_key-b"):
+                        if al >= 0 and style == "local_key-b":
+                            continue
+                        out.append({"what": "roman", "key": [st_, al, mode], "sec": sec, "prim": prim, "fig": fig, "style": style})
+        # (b) local keys relative to a global key
+        for deg in ROMAN_NUMBER:
+            for upper in (False, True):
+                for acc in ("", "b", "#"):
+                    for rsa in (False, True):
+                        out.append({"what": "local_key", "key": [st_, al, mode], "deg": deg.upper() if upper else deg, "acc": acc, "return_step_alter": rsa})
+    return out
+
+
+def oracle_roots(spec):
+    o = Outcome()
+    st_, al, mode = spec["key"]
+    o.cls(spec["what"])
+    o.cls("key-with-flat", al < 0)
+    o.cls("key-with-sharp", al > 0)
+    o.cls("key-" + mode)
+    if spec["what"] == "local_key":
+        number = ROMAN_NUMBER[spec["deg"].lower()]
+        semis = SCALE[mode][number - 1] + {"": 0, "b": -1, "#": 1}[spec["acc"]]
+        exp = _move(st_, al, number, semis)
+        loc = spec["acc"] + spec["deg"]
+        glob = _key_text(st_, al, mode, "b")
+        o.cls("accidental-" + (spec["acc"] or "none"))
+        o.cls("return_step_alter", spec["return_step_alter"])
+        o.nontrivial = number != 1
+        if abs(exp[1]) > MAX_ALTER:
+            o.excluded.append("local-key-needs-more-than-a-double-accidental")
+            o.nontrivial = False
+            return o
+        try:
+            got = call(S.process_local_key, loc, glob, spec["return_step_alter"])
+        except SutRaised as e:
+            # an interval that the 39 classes do not contain (e.g. a triply diminished third) is rejected
+            if "ValueError" in e.kind and "change_quality" in e.kind:
+                o.excluded.append("local-key-interval-outside-the-39-classes")
+                return o
+            raise
+        if spec["return_step_alter"]:
+            ok = isinstance(got, tuple) and len(got) == 2 and _same_spelling((got[0], got[1], 0), (exp[0], exp[1], 0))
+            if not ok:
+                o.add("local-key-step-alter-wrong", loc=loc, glob=glob, got=repr(got), expected=list(exp))
+        else:
+            p = _parse_name(got)
+            want_lower = spec["deg"].islower()
+            if p != exp or got[0].islower() != want_lower:
+                o.add("local-key-name-wrong", loc=loc, glob=glob, got=repr(got), expected=[exp[0].lower() if want_lower else exp[0], exp[1]])
+        return o
+
+    # ---- Roman numeral ----
+    sec, prim, fig, style = spec["sec"], spec["prim"], spec["fig"], spec["style"]
+    tonic = (st_, al)
+    mode2 = mode
+    if sec is not None:
+        tonic = _move(st_, al, *DEGREES[mode][sec])
+        mode2 = "major" if sec.isupper() else "minor"
+    exp_root = _move(tonic[0], tonic[1], *DEGREES[mode2][prim])
+    inv, member = FIGURES[fig]
+    if member is None:
+        member = (3, 4 if prim.isupper() else 3)
+    exp_bass = _move(exp_root[0], exp_root[1], *member)
+    rn = prim + fig + ("/" + sec if sec else "")
+    o.cls("style-" + style)
+    o.cls("applied-chord", sec is not None)
+    o.cls("inversion-%d" % inv)
+    o.cls("root-with-flat", exp_root[1] < 0)
+    o.cls("root-with-sharp", exp_root[1] > 0)
+    o.nontrivial = True
+    if max(abs(tonic[1]), abs(exp_root[1]), abs(exp_bass[1])) > MAX_ALTER:
+        o.excluded.append("chord-needs-more-than-a-double-accidental")
+        o.nontrivial = False
+        return o
+    try:
+        if style == "text":
+            key = _key_text(st_, al, mode, "b")
+            obj = call(S.RomanNumeral, key + ":" + rn)
+        else:
+            key = _key_text(st_, al, mode, "-" if style == "local_key-dash" else "b")
+            obj = call(lambda: S.RomanNumeral(text=rn, local_key=key))
+    except SutRaised as e:
+        o.add(e.kind, text=e.text, key=key, rn=rn, style=style)
+        return o
+    detail = dict(key=key, rn=rn, style=style, expected_root=list(exp_root), expected_bass=list(exp_bass))
+    if (obj.primary_degree, obj.secondary_degree if sec else None, obj.inversion) != (prim, sec, inv):
+        # the text was understood as another chord: not the arithmetic this property is about
+        o.excluded.append("roman-numeral-text-read-differently")
+        return o
+    root = _parse_name(getattr(obj, "root", None))
+    if root != exp_root:
+        o.add("chord-root-wrong", got=repr(getattr(obj, "root", None)), **detail)
+        return o
+    bass = _parse_name(getattr(obj, "bass_note", None))
+    if bass != exp_bass:
+        o.add("chord-bass-wrong", got=repr(getattr(obj, "bass_note", None)), **detail)
+    return o
+
+
+def _b_minor_letter(spec):
+    """The key is B minor or B sharp minor: its name starts with a lower-case b that is not a flat sign."""
+    return spec["key"][0] == "B" and spec["key"][2] == "minor" and spec["key"][1] >= 0
+
+
+KNOWN_ROOTS = {
+    # re.search("[#b]", key) finds the key letter itself
+    "roman-key-letter-b-read-as-flat": lambda spec, d: d.kind in ("local-key-name-wrong", "local-key-step-alter-wrong", "chord-root-wrong") and _b_minor_letter(spec),
+    # flats written as '-' (the way process_local_key / INT_TO_ALT write them) are not read from local_key
+    "roman-dash-flat-key-not-read": lambda spec, d: d.kind == "chord-root-wrong" and spec["what"] == "roman" and spec["style"] == "local_key-dash"
+    and spec["key"][1] < 0 and not _b_minor_letter(spec),
+    # the root name is written with '-' / '##', find_bass_note reads the first '#' or 'b' only
+    "roman-bass-drops-root-alteration": lambda spec, d: d.kind == "chord-bass-wrong"
+    and (d["detail"]["expected_root"][1] < 0 or d["detail"]["expected_root"][1] == 2),
+}
 
 KNOWN_SAMPLED = dict(KNOWN_NOTE)
 KNOWN_SAMPLED["tie-continuation-skipped"] = known_tie_continuation
@@ -686,6 +923,19 @@ SUBCHECKS = [
         budget={"quick": 160, "thorough": 2500},
         rule="generated scores (1-2 parts, optional part group) and bare parts with tie chains, chords, grace notes, 1-2 voices/staves, alterations -2..2, any of the 78 directed interval classes; transposed and transposed back; every pitched note judged by id (|alter'| <= 2), everything else by fingerprint, argument by identity fingerprint; non-trivial = interval other than P1 and a tie chain, grace note or chord present",
         known=KNOWN_SAMPLED,
-        floors={"tie-chain": 0.15, "grace-notes": 0.05, "chords": 0.15, "arg-part": 0.15, "arg-score": 0.3, "direction-down": 0.25, "tied-continuation-judged": 0.1},
+        floors={"tie-chain": 0.15, "grace-notes": 0.05, "chords": 0.15, "arg-part": 0.15, "arg-score": 0.3, "direction-down": 0.25, "tied-continuation-judged": 0.1,
+                # shapes added by the generator audit
+                "unpitched-notes": 0.1, "slurs": 0.04, "interval-direction-left-to-default": 0.04, "interval-by-keyword": 0.1},
+    ),
+    SubCheck(
+        "chord_roots",
+        oracle_roots,
+        enumerate=enum_roots,
+        shards=2,
+        known=KNOWN_ROOTS,
+        rule="exhaustive: 42 keys (7 letters x flat/natural/sharp x major/minor) x unambiguous degrees (major I ii IV V vi, minor i iv V v VI), "
+             "alone or applied to V IV ii vi / V iv v VI, x figures 6 64 65 43 2, given as 'Key:RN' text or with local_key= (flats as '-' or 'b'): "
+             "RomanNumeral.root and .bass_note against letter/semitone arithmetic; process_local_key for the 7 degrees x case x accidental x 42 global "
+             "keys (both return forms) against the natural scales; judged where no name needs more than a double accidental",
     ),
 ]
